@@ -361,9 +361,15 @@ fn run_sock(kind: &str, cap: &str, nb: bool, drain: &str, ops: &[String]) -> Str
             _ => "badop".to_string(),
         };
         let now = sink.stats();
-        let ds = now.packets_sent - last.packets_sent;
-        let dd = now.packets_dropped - last.packets_dropped;
+        // the counters only ever grow
+        let decreased = now.packets_sent < last.packets_sent
+            || now.packets_dropped < last.packets_dropped
+            || now.bytes_sent < last.bytes_sent
+            || now.bytes_dropped < last.bytes_dropped;
+        let ds = now.packets_sent.saturating_sub(last.packets_sent);
+        let dd = now.packets_dropped.saturating_sub(last.packets_dropped);
         last = now;
+        let res = if decreased { "decreased".to_string() } else { res };
         if res == "blocked" {
             abandoned = true;
         }
@@ -862,6 +868,38 @@ fn main() {
         let obs = run_sock(kind, &cap, nb, if manual { "m" } else { "a" }, &ops);
         writeln!(out, "sock {} {} {} {} {} => {}", kind, cap, if nb { 1 } else { 0 }, if manual { "m" } else { "a" }, ops.join(","), obs)
             .unwrap();
+        count += 1;
+    }
+    // back-pressure on a non-blocking Unix socket: the receiver's queue fills, sends are refused (and counted
+    // as dropped), the receiver drains, the same payload is retried and accepted
+    let npress = if tier == "quick" { 40 } else { 1500 };
+    for i in 0..npress {
+        let kind = ["bunix", "unix", "bunixln", "bunix"][i % 4];
+        let l = 1 + rng.below(30) as usize;
+        let cap = if kind.starts_with('b') { format!("{}", rng.pick(&[0usize, 1, l, l + 1, l + 2, 2 * l + 2, 3 * l + 3])) } else { "-".to_string() };
+        let mut ops: Vec<String> = Vec::new();
+        for round in 0..(2 + rng.below(3)) {
+            for j in 0..(12 + rng.below(8)) {
+                let mut m = format!("p{}.{}.", round, j);
+                while m.len() < l {
+                    m.push('y');
+                }
+                m.truncate(l);
+                ops.push(format!("e{}", hex(m.as_bytes())));
+                if rng.chance(10) {
+                    ops.push((*rng.pick(&["s", "f", "q"])).to_string());
+                }
+            }
+            ops.push("s".to_string());
+            ops.push("r".to_string());
+            ops.push("f".to_string());
+            ops.push("s".to_string());
+            if rng.chance(50) {
+                ops.push("r".to_string());
+            }
+        }
+        let obs = run_sock(kind, &cap, true, "m", &ops);
+        writeln!(out, "sock {} {} 1 m {} => {}", kind, cap, ops.join(","), obs).unwrap();
         count += 1;
     }
     let nmt = if tier == "quick" { 24 } else { 600 };
